@@ -62,8 +62,8 @@ def run():
     shutil.rmtree(wd, ignore_errors=True)
     os.makedirs(wd)
     # the VM specification is itself exercised exhaustively on the decode level by MCIsa (C05); here: binding of both engines
-    recs = record_vm(ck, wd, ['oracle', 'diff', 'branch', 'light'])
-    lines = recs['oracle'] + recs['branch'] + recs['diff'] + recs['light']
+    recs = record_vm(ck, wd, ['oracle', 'diff', 'branch', 'light', 'sweep'])
+    lines = recs['oracle'] + recs['branch'] + recs['diff'] + recs['light'] + recs['sweep']
     validate_vm(ck, 'c04', lines, 'program buffers run by interpreter and JIT (soft/hard AES, v1/v2, entry rounding modes 0-3): oracle runs executed by the TLA+ VM, full-length runs compared engine to engine')
     runs = [json.loads(l) for l in lines if l.startswith('{"e":"run"')]
     ck.cov['programs'] = sum(1 for r in runs if r.get('first'))
@@ -74,7 +74,7 @@ def run():
     ck.cov['distinct_nontrivial'] = ck.cov['programs']
     ck.cov['rule'] = ('seeded program buffers: uniformly random words, branch-/CFROUND-/store-heavy mixes, short programs padded with no-op IMUL_RCP words, worst-case length; '
                       'each run by 4 engines (interpreter/JIT x soft/hard AES) over pattern scratchpad + pattern dataset; oracle runs (1-3 iterations) are executed instruction by instruction by RxVm in TLC, '
-                      'full runs (2048 iterations) must agree on the register file, rounding mode and a hash over every changed scratchpad word; light mode: interpreter vs JIT over a real cache with dataset offsets 0, 1, 127, 128, 129, 255, 256, ..., 2^19-1; distinct = distinct program')
+                      'full runs (2048 iterations) must agree on the register file, rounding mode and a hash over every changed scratchpad word; every instruction kind x {src = dst, src != dst} x 35 immediates around the sign / size boundaries (oracle, both engines); light mode: interpreter vs JIT over a real cache with dataset offsets 0, 1, 127, 128, 129, 255, 256, ..., 2^19-1; distinct = distinct program')
     ck.cov['states'] = max(ck.cov['states'], 1)
     ck.cov['transitions'] = max(ck.cov['transitions'], 1)
     ck.sample({k: (v if len(str(v)) < 200 else str(v)[:200]) for k, v in runs[0].items()})
